@@ -149,8 +149,12 @@ func transactOnConn(ctx context.Context, conn *sql.DB, b beginnable, fn func(con
 		return
 	}
 
+	// returned 仅在 fn 正常返回后为 true。不能靠 recover() != nil 判断是否 panic：
+	// panic(nil) 与 runtime.Goexit 时 recover() 返回 nil，而事务体并未完成。
+	returned := false
 	defer func() {
-		if p := recover(); p != nil {
+		if !returned {
+			p := recover()
 			if e := tx.Rollback(); e != nil {
 				err = fmt.Errorf("事务中发生 panic：%v，回滚也失败了：%w", p, e)
 			} else {
@@ -165,5 +169,8 @@ func transactOnConn(ctx context.Context, conn *sql.DB, b beginnable, fn func(con
 		}
 	}()
 
-	return fn(ctx, tx)
+	err = fn(ctx, tx)
+	returned = true
+
+	return
 }
